@@ -126,7 +126,22 @@ def gen_rules_def(rng, flavor: str, name: str, *, max_fields: int = 5, empty_p: 
                 grp.append(None)
             if sorted(map(str, grp)) not in [sorted(map(str, g)) for g in xor]:
                 xor.append(grp)
-    return {"flavor": flavor, "name": name, "fields": fields, "xor": xor, "empty": rng.random() < empty_p}
+    d = {"flavor": flavor, "name": name, "fields": fields, "xor": xor, "empty": rng.random() < empty_p}
+    if flavor == "python" and rng.random() < 0.5:
+        d["outputs"] = nonalphabetical(rng, [o for o in OUT_POOL if o not in names], rng.choice([2, 2, 3]))
+        d["typed_outputs"] = rng.random() < 0.5
+    return d
+
+
+OUT_POOL = ["zeta", "omega", "result", "mid", "beta_out", "alpha_out", "count", "text", "aux", "y_out", "b_out"]
+
+
+def nonalphabetical(rng, pool: list[str], k: int) -> list[str]:
+    """k distinct names in a declaration order that is NOT the alphabetical one"""
+    while True:
+        pick = rng.sample(pool, k)
+        if pick != sorted(pick):
+            return pick
 
 
 def gen_meta_def(rng, name: str, *, with_requires: bool = False) -> dict:
@@ -157,6 +172,11 @@ def gen_meta_def(rng, name: str, *, with_requires: bool = False) -> dict:
             f["sep"] = rng.choice([",", ":", " "])
         if f["kind"] in ("optstr", "strd") and rng.random() < 0.2:
             f["allowed_values"] = ["d", "x", "y"]
+    if rng.random() < 0.4:  # two optional outargs (path templates) declared in non-alphabetical order
+        taken = {f["name"] for f in d["fields"]}
+        for i, o in enumerate(nonalphabetical(rng, [x for x in OUT_POOL if x not in taken], 2)):
+            d["fields"].append({"name": o, "kind": "outopt", "requires": [], "argstr": f"--{o.replace('_', '-')}"})
+    n = len(d["fields"])
     # at most one negative position; -1 is slot n (= number of user fields), which must then be free
     free = [f for f in d["fields"] if "position" not in f]
     if free and rng.random() < 0.4 and all(f.get("position") != n for f in d["fields"]):
@@ -209,6 +229,15 @@ def python_source(d: dict, marker_env: str = "VERIF_RULES_MARK") -> str:
         else:
             params.append(f"{f['name']}: {PY_TYPES[f['kind']]} = {DEFAULTS[f['kind']]!r}")
     names = ", ".join(f["name"] for f in d["fields"])
+    args = f"({d['name']!r}, {names}{',' if d['fields'] else ''})"
+    outs = d.get("outputs", ["out"])
+    if len(outs) == 1:
+        ret = f"repr({args})"
+    else:  # a tuple: python tasks bind its items to the outputs BY POSITION; item i has its own type and value
+        items = []
+        for i, o in enumerate(outs):
+            items.append([f"repr(({i}, {o!r}) + {args})", f"{i}", f"[{i}, {o!r}]"][i % 3])
+        ret = "(" + ", ".join(items) + ")"
     return (
         f"def {d['name']}({', '.join(params)}):\n"
         f"    import os\n"
@@ -216,7 +245,7 @@ def python_source(d: dict, marker_env: str = "VERIF_RULES_MARK") -> str:
         f"    if m:\n"
         f"        with open(m, 'a') as fh:\n"
         f"            fh.write({d['name']!r} + '\\n')\n"
-        f"    return repr(({d['name']!r}, {names}{',' if d['fields'] else ''}))\n"
+        f"    return {ret}\n"
     )
 
 
@@ -256,7 +285,13 @@ def build(d: dict, moddir: Path):
                 kw["allowed_values"] = f["allowed_values"]
             if kw:
                 inputs[f["name"]] = python.arg(**kw)
-        return python.define(fn, inputs=inputs or None, outputs=["out"], xor=[list(g) for g in d["xor"]])
+        outs = d.get("outputs", ["out"])
+        if len(outs) > 1 and d.get("typed_outputs"):  # declared types: a swap of positions is then a type error too
+            tys = [str, int, list]
+            outs = {o: python.out(type=tys[i % 3]) for i, o in enumerate(outs)}
+        else:
+            outs = list(outs)
+        return python.define(fn, inputs=inputs or None, outputs=outs, xor=[list(g) for g in d["xor"]])
     import typing as ty
 
     from fileformats.generic import File
@@ -373,8 +408,10 @@ def probe_submission(cls, a: dict, root: Path, how: str, marker: Path) -> dict:
     ran_marker = marker.exists()
     res = {"exc": exc, "jobdir": bool(jobdirs)}
     if cls._task_type() == "python":
+        from pydra.utils.general import get_fields
+
         res["ran"] = ran_marker
-        res["out"] = getattr(out, "out", None) if out is not None else None
+        res["out"] = {f.name: repr(getattr(out, f.name)) for f in get_fields(out)} if out is not None else None
     else:
         res["ran"] = out is not None
         res["out"] = getattr(out, "stdout", None) if out is not None else None
